@@ -3,6 +3,9 @@
 //!
 //! case line: <adapter> <prefix hex|-> <stream hex|-> <rscript|-> <wscript|-> <ops|->
 //!   adapter: th | ht | thht | rw | braidN | braidT | cs | ss | sn (sniff, then ops on the rewound stream)
+//!            dx:<cap> | dxt:<cap> | dxc:<cap> | dxs:<cap>: a REAL hyperdriver DuplexStream pair with a pipe of <cap>
+//!            bytes (bare / under TlsBraid::NoTls / client Stream / server Stream); the scripts are ignored, the
+//!            ops go to one end and "inner written" is what can be read at the other end afterwards
 //!   rscript: P | E | D<k>, comma separated        wscript: P | E | A<k>
 //!   ops: R<cap>.<prefill> | W<n> | V<n1>+<n2>+... | F | S
 //! output: <op results, comma separated|->;<inner written hex|->;<sniff: H1|H2|ERR . pendings . prefix hex | ->
@@ -302,6 +305,39 @@ fn run_case(line: &str) -> String {
             _ => Op::S,
         }).collect()
     };
+    if adapter.starts_with("dx") {
+        let (kind, cap) = adapter.split_once(':').unwrap();
+        let cap: usize = cap.parse().unwrap();
+        let (a, mut b) = hyperdriver::stream::duplex::DuplexStream::new(cap);
+        let mut stack = match kind {
+            "dx" => Stack::Tokio(Box::pin(a)),
+            "dxt" => Stack::Tokio(Box::pin(TlsBraid::<hyperdriver::stream::duplex::DuplexStream, hyperdriver::stream::duplex::DuplexStream>::NoTls(a))),
+            "dxc" => Stack::Tokio(Box::pin(hyperdriver::client::conn::stream::Stream::new(a))),
+            "dxs" => Stack::Tokio(Box::pin(hyperdriver::server::conn::Stream::new(a))),
+            _ => panic!("unknown adapter"),
+        };
+        let res = drive(&mut stack, &ops);
+        // drain the far end
+        let waker = noop_waker();
+        let mut cx = Context::from_waker(&waker);
+        let mut got: Vec<u8> = Vec::new();
+        loop {
+            let mut storage = [0u8; 4096];
+            let mut rb = tokio::io::ReadBuf::new(&mut storage);
+            match tokio::io::AsyncRead::poll_read(Pin::new(&mut b), &mut cx, &mut rb) {
+                Poll::Ready(Ok(())) if !rb.filled().is_empty() => got.extend_from_slice(rb.filled()),
+                _ => break,
+            }
+            if got.len() > 1 << 20 {
+                break;
+            }
+        }
+        return format!(
+            "{};{};-",
+            if res.is_empty() { "-".to_string() } else { res.join(",") },
+            if got.is_empty() { "-".to_string() } else { hex(&got) }
+        );
+    }
     let written = std::rc::Rc::new(std::cell::RefCell::new(Vec::new()));
     let inner = Scripted { stream: stream.into(), rscript, wscript, written: written.clone() };
     let mut sniffed = "-".to_string();
